@@ -34,6 +34,7 @@ pub fn strategy() -> impl Strategy<Value = Case> {
         2 => any::<u16>().prop_map(Op::Edit),
         1 => (any::<u16>(), any::<u16>()).prop_map(|(a, b)| Op::Create(a, b)),
         1 => any::<u16>().prop_map(Op::Delete),
+        1 => any::<u16>().prop_map(Op::BulkCreate),
     ];
     let step = prop_oneof![
         4 => repo.prop_map(Step::Repo),
